@@ -28,10 +28,34 @@ Proof.
   specialize (IH texts ltac:(lia)). destruct (changed_flags raws texts); [discriminate|congruence].
 Qed.
 
+(* the four prefixes of writeLine *)
+Definition src_prefixes : list str := [[62; 9]; [9]; [43; 9]; [45; 9]].   (* ">\t" "\t" "+\t" "-\t" *)
+
+(* what writeLine(prefix, t) writes *)
+Definition src_unit (p t : str) : str :=
+  p ++ escape_printable t ++ (if has_suffix_nl t then [] else [10]).
+
+(* what Explain writes for one wrapped line *)
+Definition expl_unit (x : str) : str :=
+  (if nonempty_list x then [9] else []) ++ escape_printable x ++ [10].
+
+(* what ShowSummary writes as a hint *)
+Definition hint_unit (cl what : str) : str :=
+  [40; 82; 117; 110; 32; 34] ++ cl ++ [34; 32; 116; 111; 32] ++ what ++ [46; 41] ++ [10].
+
+Definition hint_e : str * str := ([45; 101], [115; 104; 111; 119; 32; 101; 120; 112; 108; 97; 110; 97; 116; 105; 111; 110; 115]).
+Definition hint_fs : str * str := ([45; 102; 115], [115; 104; 111; 119; 32; 119; 104; 97; 116; 32; 99; 97; 110; 32; 98; 101; 32; 102; 105; 120; 101; 100; 32; 97; 117; 116; 111; 109; 97; 116; 105; 99; 97; 108; 108; 121]).
+Definition hint_F : str * str := ([45; 70], [97; 117; 116; 111; 109; 97; 116; 105; 99; 97; 108; 108; 121; 32; 102; 105; 120; 32; 115; 111; 109; 101; 32; 105; 115; 115; 117; 101; 115]).
+
 Section Invariant.
+  Variable o : opts.
   Variable P : logger -> Prop.
   (* PanicOK: P does not care about the ghost flag l_panicked; otherwise the events must be well-formed *)
   Variable PanicOK : Prop.
+  (* GL u: u is an acceptable unit of output -- the bytes written between two line boundaries *)
+  Variable GL : str -> Prop.
+  (* LogOK lv file linenos msg: acceptable arguments of Logf *)
+  Variable LogOK : level -> str -> str -> str -> Prop.
   Hypothesis P_suppress_diag : forall l v, P l -> P (set_suppress_diag l v).
   Hypothesis P_suppress_expl : forall l v, P l -> P (set_suppress_expl l v).
   Hypothesis P_logged : forall l v, P l -> P (set_logged l v).
@@ -40,99 +64,137 @@ Section Invariant.
   Hypothesis P_expl_avail : forall l v, P l -> P (set_expl_avail l v).
   Hypothesis P_fix_avail : forall l v, P l -> P (set_fix_avail l v).
   Hypothesis P_panicked : forall l, PanicOK -> P l -> P (set_panicked l true).
-  (* some pieces and then a piece that ends the line *)
-  Hypothesis P_writes : forall l ws w, Forall safe ws -> safe w -> ends_nl w -> P l ->
+  (* some pieces and then a piece that ends the unit *)
+  Hypothesis P_writes : forall l ws w, GL (concat ws ++ w) -> P l ->
     P (out_write (fold_left out_write ws l) w).
   Hypothesis P_out_separate : forall l, P l -> P (out_separate l).
   Hypothesis P_err_write : forall l s, safe s -> P l -> P (set_err l (sw_write (l_err l) s)).
-  Hypothesis P_logf : forall o l lv f n m, P l -> P (logf o l lv f n m).
+  Hypothesis P_logf : forall l lv f n m, LogOK lv f n m -> P l -> P (logf o l lv f n m).
+  Hypothesis GL_summary_line : forall e w n, GL (summary_line e w n).
 
-  Lemma inv_out_write l w : safe w -> ends_nl w -> P l -> P (out_write l w).
-  Proof. intros Hs He Hl. apply (P_writes l [] w); auto. Qed.
+  Definition src_ok (t : str) : Prop := forall p, In p src_prefixes -> GL (src_unit p t).
+  Definition view_ok (ln : line) (fv : fixview) : Prop :=
+    Forall src_ok (ln_raws ln) /\ Forall src_ok (fv_above fv) /\ Forall src_ok (fv_texts fv) /\ Forall src_ok (fv_below fv).
+  Definition explanation_ok (e : list str) : Prop :=
+    GL [10] /\ Forall (fun x => GL (expl_unit x)) (wrap explanation_width e).
+  Definition hint_ok (args : list str) (h : str * str) : Prop :=
+    forall cl, command_line args (fst h) = Some cl -> GL (hint_unit cl (snd h)).
+  Definition summary_ok (args : list str) : Prop := hint_ok args hint_e /\ hint_ok args hint_fs /\ hint_ok args hint_F.
 
-  Lemma nl_safe : safe [10]. Proof. repeat constructor. Qed.
-  Lemma nl_ends : ends_nl [10]. Proof. exists []. reflexivity. Qed.
+  Definition ev_ok (ev : event) : Prop :=
+    (PanicOK \/ wf_event ev) /\
+    match ev with
+    | EvDiag ln lv f m => view_ok ln no_fix /\ LogOK lv (ln_file ln) (linenos ln) m
+    | EvExplain e => explanation_ok e
+    | EvFix ln fv lv f m e actions =>
+      view_ok ln fv /\ LogOK lv (ln_file ln) (affected_linenos ln actions) m /\
+      Forall (fun a : str * Z => LogOK LAutofix (ln_file ln) (if (snd a =? 0)%Z then [] else dec_of_Z (snd a)) (fst a)) actions /\
+      explanation_ok e
+    | EvSaved _ => True
+    | EvTechError _ _ => True
+    | EvSummary args => summary_ok args
+    end.
 
-  Lemma inv_out_write_line l s : safe s -> P l -> P (out_write_line l s).
+  Lemma inv_out_write l w : GL w -> P l -> P (out_write l w).
+  Proof. intros Hg Hl. apply (P_writes l [] w); auto. Qed.
+
+  Lemma inv_write_line l p t : In p src_prefixes -> src_ok t -> P l -> P (write_line l p t).
   Proof.
-    intros Hs Hl. unfold out_write_line, sw_write_line.
-    assert (set_out l (sw_write_byte (sw_write (l_out l) s) 10) = out_write (fold_left out_write [s] l) [10]) as ->
-        by (destruct l; reflexivity).
-    apply P_writes; [repeat constructor; assumption|apply nl_safe|apply nl_ends|assumption].
-  Qed.
-
-  Lemma inv_write_line l p t : safe p -> P l -> P (write_line l p t).
-  Proof.
-    intros Hp Hl. unfold write_line.
+    intros Hp Ht Hl. specialize (Ht p Hp). unfold src_unit in Ht. unfold write_line.
     destruct (has_suffix_nl t) eqn:E.
-    - apply (P_writes l [p] (escape_printable t)); [repeat constructor; assumption|apply escape_printable_safe| |assumption].
-      apply escape_ends_nl, has_suffix_nl_ends, E.
-    - apply (P_writes l [p; escape_printable t] [10]); [|apply nl_safe|apply nl_ends|assumption].
-      repeat constructor; [assumption|apply escape_printable_safe].
+    - apply (P_writes l [p] (escape_printable t)); [|assumption].
+      cbn [concat]. rewrite !app_nil_r in *. exact Ht.
+    - apply (P_writes l [p; escape_printable t] [10]); [|assumption].
+      cbn [concat]. rewrite app_nil_r, <- app_assoc. exact Ht.
   Qed.
 
-  Lemma inv_write_lines l p ts : safe p -> P l -> P (write_lines l p ts).
+  Lemma inv_write_lines l p ts : In p src_prefixes -> Forall src_ok ts -> P l -> P (write_lines l p ts).
   Proof.
-    intro Hp. unfold write_lines. revert l. induction ts as [|t ts IH]; intros l Hl; simpl; [assumption|].
+    intros Hp Hts. unfold write_lines. revert l. induction Hts as [|t ts Ht Hts IH]; intros l Hl; simpl; [assumption|].
     apply IH, inv_write_line; assumption.
   Qed.
 
-  Lemma inv_write_diff_lines l p raws texts flags : safe p -> P l -> P (write_diff_lines l p raws texts flags).
+  Lemma in_prefix_gt : In [62; 9] src_prefixes. Proof. left. reflexivity. Qed.
+  Lemma in_prefix_tab : In [9] src_prefixes. Proof. right. left. reflexivity. Qed.
+  Lemma in_prefix_plus : In [43; 9] src_prefixes. Proof. right. right. left. reflexivity. Qed.
+  Lemma in_prefix_minus : In [45; 9] src_prefixes. Proof. right. right. right. left. reflexivity. Qed.
+
+  Lemma inv_write_diff_lines l p raws texts flags :
+    In p src_prefixes -> Forall src_ok raws -> Forall src_ok texts -> P l -> P (write_diff_lines l p raws texts flags).
   Proof.
-    intro Hp. revert l texts flags. induction raws as [|r raws IH]; intros l texts flags Hl; simpl; [assumption|].
-    destruct flags as [|f flags]; [assumption|]. apply IH.
+    intros Hp Hr. revert l texts flags. induction Hr as [|r raws Hr Hrs IH]; intros l texts flags Ht Hl; simpl; [assumption|].
+    destruct flags as [|f flags]; [assumption|].
+    assert (Forall src_ok (tl texts)) as Htl by (destruct texts; [constructor|inversion Ht; assumption]).
+    apply IH; [assumption|].
     destruct f; [|apply inv_write_line; assumption].
-    assert (P (write_line l [45; 9] r)) as H by (apply inv_write_line; [repeat constructor|assumption]).
-    destruct (nonempty_list (hd [] texts)); [apply inv_write_line; [repeat constructor|assumption]|assumption].
+    assert (P (write_line l [45; 9] r)) as H by (apply inv_write_line; [apply in_prefix_minus|assumption|assumption]).
+    destruct texts as [|t texts]; cbn [hd nonempty_list]; [assumption|].
+    destruct (nonempty_list t); [|assumption].
+    apply inv_write_line; [apply in_prefix_plus|inversion Ht; assumption|assumption].
   Qed.
 
-  Lemma inv_write_diff o l ln fv :
+  Lemma inv_write_diff l ln fv :
     PanicOK \/ (length (ln_raws ln) <= length (fv_texts fv))%nat \/ is_autofix o = false ->
+    Forall src_ok (ln_raws ln) -> Forall src_ok (fv_texts fv) ->
     P l -> P (write_diff o l ln fv).
   Proof.
-    intros Hw Hl. unfold write_diff. destruct (is_autofix o).
+    intros Hw Hr Ht Hl. unfold write_diff. destruct (is_autofix o).
     - destruct (changed_flags (ln_raws ln) (fv_texts fv)) as [flags|] eqn:E.
-      + apply inv_write_diff_lines; [|assumption]. destruct (existsb (fun b => b) flags); repeat constructor.
+      + apply inv_write_diff_lines; try assumption.
+        destruct (existsb (fun b => b) flags); [apply in_prefix_tab|apply in_prefix_gt].
       + destruct Hw as [Hw|[Hw|Hw]]; [apply P_panicked; assumption| |discriminate].
         exfalso. exact (changed_flags_some _ _ Hw E).
-    - apply inv_write_diff_lines; [repeat constructor|assumption].
+    - apply inv_write_diff_lines; [apply in_prefix_gt|assumption|constructor|assumption].
   Qed.
 
-  Lemma inv_write_source o l ln fv :
+  Lemma inv_write_source l ln fv :
     PanicOK \/ (length (ln_raws ln) <= length (fv_texts fv))%nat \/ is_autofix o = false ->
-    P l -> P (write_source o l ln fv).
+    view_ok ln fv -> P l -> P (write_source o l ln fv).
   Proof.
-    intros Hw Hl. unfold write_source. destruct (negb (lo_show_source o)); [assumption|].
+    intros Hw (Hr & Ha & Ht & Hb) Hl. unfold write_source. destruct (negb (lo_show_source o)); [assumption|].
     destruct (is_autofix o) eqn:Em.
-    - apply P_out_separate, inv_write_lines; [repeat constructor|].
-      apply inv_write_diff; [rewrite Em; assumption|]. apply inv_write_lines; [repeat constructor|assumption].
+    - apply P_out_separate, inv_write_lines; [apply in_prefix_plus|assumption|].
+      apply inv_write_diff; [rewrite Em; assumption|assumption|assumption|].
+      apply inv_write_lines; [apply in_prefix_plus|assumption|assumption].
     - destruct (match l_prev_line l with Some p => p =? ln_id ln | None => false end); [assumption|].
-      apply inv_write_diff; [rewrite Em; auto|]. apply P_out_separate, P_prev_line. assumption.
+      apply inv_write_diff; [rewrite Em; auto|assumption|assumption|]. apply P_out_separate, P_prev_line. assumption.
   Qed.
 
-  Lemma inv_fold {A} (f : logger -> A -> logger) xs l :
-    (forall l x, P l -> P (f l x)) -> P l -> P (fold_left f xs l).
-  Proof. intro Hf. revert l. induction xs as [|x xs IH]; intros l Hl; simpl; [assumption|]. apply IH, Hf, Hl. Qed.
-
-  Lemma inv_explain o l e : P l -> P (explain o l e).
+  Lemma inv_fold {A} (Q : A -> Prop) (f : logger -> A -> logger) xs l :
+    (forall l x, Q x -> P l -> P (f l x)) -> Forall Q xs -> P l -> P (fold_left f xs l).
   Proof.
-    intro Hl. unfold explain. destruct (l_suppress_expl l); [assumption|].
+    intros Hf Hxs. revert l. induction Hxs as [|x xs Hx Hxs IH]; intros l Hl; simpl; [assumption|].
+    apply IH, Hf; assumption.
+  Qed.
+
+  Lemma inv_out_write_line_nil l : GL [10] -> P l -> P (out_write_line l []).
+  Proof.
+    intros Hg Hl. unfold out_write_line, sw_write_line.
+    assert (set_out l (sw_write_byte (sw_write (l_out l) []) 10) = out_write l [10]) as -> by (destruct l; reflexivity).
+    apply inv_out_write; assumption.
+  Qed.
+
+  Lemma inv_explain l e : explanation_ok e -> P l -> P (explain o l e).
+  Proof.
+    intros (Hnl & He) Hl. unfold explain. destruct (l_suppress_expl l); [assumption|].
     assert (P (set_expl_avail l true)) as H1 by (apply P_expl_avail; assumption).
     destruct (negb (lo_explain o)); [assumption|].
     destruct (once_seen _ _); [assumption|].
-    apply inv_out_write_line; [constructor|].
-    apply inv_fold.
-    - intros l0 x H0. destruct (nonempty_list x).
+    apply inv_out_write_line_nil; [assumption|].
+    apply (inv_fold (fun x => GL (expl_unit x))); [|assumption|].
+    - intros l0 x Hx H0. unfold expl_unit in Hx. destruct (nonempty_list x).
       + unfold out_write_line, sw_write_line.
         assert (set_out (out_write l0 [9]) (sw_write_byte (sw_write (l_out (out_write l0 [9])) (escape_printable x)) 10)
                 = out_write (fold_left out_write [[9]; escape_printable x] l0) [10]) as -> by (destruct l0; reflexivity).
-        apply P_writes; [|apply nl_safe|apply nl_ends|assumption].
-        repeat constructor. apply escape_printable_safe.
-      + apply inv_out_write_line; [apply escape_printable_safe|assumption].
+        apply P_writes; [|assumption]. cbn [concat]. rewrite app_nil_r, <- app_assoc. exact Hx.
+      + unfold out_write_line, sw_write_line.
+        assert (set_out l0 (sw_write_byte (sw_write (l_out l0) (escape_printable x)) 10)
+                = out_write (fold_left out_write [escape_printable x] l0) [10]) as -> by (destruct l0; reflexivity).
+        apply P_writes; [|assumption]. cbn [concat]. rewrite app_nil_r. exact Hx.
     - apply P_out_separate, P_prev_line, P_explained. assumption.
   Qed.
 
-  Lemma inv_relevant o l f : P l -> P (snd (relevant o l f)).
+  Lemma inv_relevant l f : P l -> P (snd (relevant o l f)).
   Proof. intro Hl. unfold relevant. cbn [snd]. apply P_suppress_expl, P_suppress_diag, Hl. Qed.
 
   Lemma inv_first_time l f n m : P l -> P (snd (first_time l f n m)).
@@ -142,93 +204,148 @@ Section Invariant.
     - apply P_logged, Hl.
   Qed.
 
-  Lemma inv_diag o l ln lv f m : P l -> P (diag o l ln lv f m).
+  Lemma inv_diag l ln lv f m :
+    view_ok ln no_fix -> LogOK lv (ln_file ln) (linenos ln) m -> P l -> P (diag o l ln lv f m).
   Proof.
-    intro Hl. unfold diag. destruct (is_autofix o) eqn:Em; [apply P_suppress_expl, Hl|].
-    pose proof (inv_relevant o l f Hl) as H1. destruct (relevant o l f) as [r la]. cbn [snd] in H1.
+    intros Hv Hlog Hl. unfold diag. destruct (is_autofix o) eqn:Em; [apply P_suppress_expl, Hl|].
+    pose proof (inv_relevant l f Hl) as H1. destruct (relevant o l f) as [r la]. cbn [snd] in H1.
     destruct (negb r); [assumption|].
     pose proof (inv_first_time la (ln_file ln) (linenos ln) m H1) as H2.
     destruct (first_time la (ln_file ln) (linenos ln) m) as [ft lb]. cbn [snd] in H2.
     destruct (negb ft); [apply P_suppress_diag, H2|].
-    apply P_logf. destruct (lo_show_source o); [|assumption].
-    apply inv_write_source; [auto|].
+    apply P_logf; [assumption|]. destruct (lo_show_source o); [|assumption].
+    apply inv_write_source; [auto|assumption|].
     destruct (match l_prev_line lb with Some p => p =? ln_id ln | None => false end); [assumption|apply P_out_separate, H2].
   Qed.
 
-  Lemma inv_apply_fix o l ln fv lv f m e actions :
+  Lemma inv_apply_fix l ln fv lv f m e actions :
     PanicOK \/ (length (ln_raws ln) <= length (fv_texts fv))%nat ->
+    view_ok ln fv -> LogOK lv (ln_file ln) (affected_linenos ln actions) m ->
+    Forall (fun a : str * Z => LogOK LAutofix (ln_file ln) (if (snd a =? 0)%Z then [] else dec_of_Z (snd a)) (fst a)) actions ->
+    explanation_ok e ->
     P l -> P (apply_fix o l ln fv lv f m e actions).
   Proof.
-    intros Hw Hl. unfold apply_fix.
+    intros Hw Hv Hlog Hacts He Hl. unfold apply_fix.
     assert (PanicOK \/ (length (ln_raws ln) <= length (fv_texts fv))%nat \/ is_autofix o = false) as Hw' by tauto.
-    pose proof (inv_relevant o l f Hl) as H1. destruct (relevant o l f) as [r la]. cbn [snd] in H1.
+    pose proof (inv_relevant l f Hl) as H1. destruct (relevant o l f) as [r la]. cbn [snd] in H1.
     destruct (negb (r && (nonempty_list actions || negb (is_autofix o)))); [assumption|].
     set (logDiagnostic := if str_eqb f silent_autofix_format then false
                           else if lo_autofix o && negb (lo_show_autofix o) then false else true).
     set (lb := if logDiagnostic then logf o _ lv (ln_file ln) (affected_linenos ln actions) m else la).
     assert (P lb) as H2.
-    { unfold lb. destruct logDiagnostic; [|assumption]. apply P_logf.
+    { unfold lb. destruct logDiagnostic; [|assumption]. apply P_logf; [assumption|].
       destruct (is_autofix o) eqn:Em; [assumption|].
       pose proof (inv_first_time la (ln_file ln) (affected_linenos ln actions) m H1) as H3.
       destruct (first_time la (ln_file ln) (affected_linenos ln actions) m) as [ft lb0]. cbn [snd] in H3.
-      destruct ft; [apply inv_write_source; [auto|]|]; assumption. }
+      destruct ft; [apply inv_write_source; [auto|assumption|]|]; assumption. }
     clearbody lb.
     set (lc := if is_autofix o then write_source o (fold_left _ actions lb) ln fv else lb).
     assert (P lc) as H3.
-    { unfold lc. destruct (is_autofix o) eqn:Em; [|assumption]. apply inv_write_source; [tauto|].
-      apply inv_fold; [|assumption]. intros l0 a H0. apply P_logf, H0. }
+    { unfold lc. destruct (is_autofix o) eqn:Em; [|assumption]. apply inv_write_source; [tauto|assumption|].
+      apply (inv_fold (fun a : str * Z => LogOK LAutofix (ln_file ln) (if (snd a =? 0)%Z then [] else dec_of_Z (snd a)) (fst a)));
+        [|assumption|assumption].
+      intros l0 a Ha H0. apply P_logf; assumption. }
     clearbody lc.
     destruct (logDiagnostic && nonempty_list e); [apply inv_explain|]; assumption.
   Qed.
 
-  Lemma inv_hint l args a w : PanicOK \/ args <> [] -> safe w -> P l -> P (hint l args a w).
+  Lemma inv_hint l args h : PanicOK \/ args <> [] -> hint_ok args h -> P l -> P (hint l args (fst h) (snd h)).
   Proof.
-    intros Hw Hs Hl. unfold hint, command_line. destruct args as [|a0 rest].
-    - destruct Hw as [Hw|Hw]; [apply P_panicked; assumption|congruence].
-    - apply inv_out_write_line; [|assumption].
-      repeat (apply safe_cons; [reflexivity|]).
-      apply safe_app; [apply escape_printable_safe|].
-      repeat (apply safe_cons; [reflexivity|]).
-      apply safe_app; [assumption|]. repeat constructor.
+    intros Hw Hh Hl. unfold hint. unfold hint_ok in Hh. destruct (command_line args (fst h)) as [cl|] eqn:E.
+    - specialize (Hh cl eq_refl). unfold out_write_line, sw_write_line.
+      match goal with |- P (set_out l (sw_write_byte (sw_write (l_out l) ?s) 10)) =>
+        assert (set_out l (sw_write_byte (sw_write (l_out l) s) 10) = out_write (fold_left out_write [s] l) [10]) as ->
+          by (destruct l; reflexivity) end.
+      apply P_writes; [|assumption]. cbn [concat]. rewrite app_nil_r.
+      unfold hint_unit in Hh. rewrite <- !app_assoc in *. exact Hh.
+    - unfold command_line in E. destruct args; [|discriminate].
+      destruct Hw as [Hw|Hw]; [apply P_panicked; assumption|congruence].
   Qed.
 
-  Hypothesis summary_line_safe : forall e w n, safe (summary_line e w n).
-  Hypothesis summary_line_ends : forall e w n, ends_nl (summary_line e w n).
-
-  Lemma inv_show_summary o l args : PanicOK \/ args <> [] -> P l -> P (show_summary o l args).
+  Lemma inv_show_summary l args : PanicOK \/ args <> [] -> summary_ok args -> P l -> P (show_summary o l args).
   Proof.
-    intros Hw Hl. unfold show_summary. destruct (lo_quiet o || lo_autofix o); [assumption|].
+    intros Hw (He & Hfs & HF) Hl. unfold show_summary. destruct (lo_quiet o || lo_autofix o); [assumption|].
     set (l1 := if lo_show_source o then out_separate l else l).
     assert (P l1) as H1 by (unfold l1; destruct (lo_show_source o); [apply P_out_separate|]; assumption).
     set (l2 := out_write l1 _).
-    assert (P l2) as H2 by (unfold l2; apply inv_out_write; [apply summary_line_safe|apply summary_line_ends|assumption]).
+    assert (P l2) as H2 by (unfold l2; apply inv_out_write; [apply GL_summary_line|assumption]).
     clearbody l2. clear l1 H1.
     set (l3 := if l_expl_avail l2 && negb (lo_explain o) then hint l2 args _ _ else l2).
     assert (P l3) as H3.
-    { unfold l3. destruct (l_expl_avail l2 && negb (lo_explain o)); [apply inv_hint; [assumption|repeat constructor|]|]; assumption. }
+    { unfold l3. destruct (l_expl_avail l2 && negb (lo_explain o)); [|assumption].
+      apply (inv_hint l2 args hint_e); assumption. }
     clearbody l3.
     destruct (l_fix_avail l3); [|assumption].
-    apply inv_hint; [assumption|repeat constructor|].
-    destruct (negb (lo_show_autofix o)); [apply inv_hint; [assumption|repeat constructor|]|]; assumption.
+    apply (inv_hint _ args hint_F); [assumption|assumption|].
+    destruct (negb (lo_show_autofix o)); [apply (inv_hint l3 args hint_fs)|]; assumption.
   Qed.
 
-  Lemma inv_step o l ev : PanicOK \/ wf_event ev -> P l -> P (log_step o l ev).
+  Lemma inv_step l ev : ev_ok ev -> P l -> P (log_step o l ev).
   Proof.
-    intros Hw Hl. destruct ev; cbn [log_step]; cbn [wf_event] in Hw.
-    - apply inv_diag, Hl.
-    - apply inv_explain, Hl.
-    - apply inv_apply_fix; assumption.
+    intros (Hw & Hev) Hl. destruct ev; cbn [log_step]; cbn [wf_event] in Hw.
+    - destruct Hev. apply inv_diag; assumption.
+    - apply inv_explain; assumption.
+    - destruct Hev as (? & ? & ? & ?). apply inv_apply_fix; assumption.
     - unfold saved. destruct (negb (lo_autofix o) && modified); [apply P_fix_avail|]; assumption.
     - unfold tech_error. apply P_err_write; [apply escape_printable_safe|assumption].
     - apply inv_show_summary; assumption.
   Qed.
 
-  Theorem inv_run o evs : PanicOK \/ Forall wf_event evs -> P new_logger -> P (log_run o evs).
+  Theorem inv_run evs : Forall ev_ok evs -> P new_logger -> P (log_run o evs).
   Proof.
     intros Hw H0. unfold log_run. generalize dependent new_logger.
-    induction evs as [|ev evs IH]; intros l Hl; simpl; [assumption|].
-    apply IH.
-    - destruct Hw as [Hw|Hw]; [auto|]. right. inversion Hw; assumption.
-    - apply inv_step; [|assumption]. destruct Hw as [Hw|Hw]; [auto|]. right. inversion Hw; assumption.
+    induction Hw as [|ev evs Hev Hw IH]; intros l Hl; simpl; [assumption|].
+    apply IH, inv_step; assumption.
   Qed.
 End Invariant.
+
+(* ---------- every event is fine for units that only need to be XPrint-only and newline-terminated ---------- *)
+
+Definition GL0 (u : str) : Prop := safe u /\ ends_nl u.
+
+Lemma ends_nl_app' a b : ends_nl b -> ends_nl (a ++ b).
+Proof. intros [p ->]. exists (a ++ p). rewrite app_assoc. reflexivity. Qed.
+
+Lemma src_unit_GL0 p t : In p src_prefixes -> GL0 (src_unit p t).
+Proof.
+  intro Hp. assert (safe p) as Hs.
+  { destruct Hp as [<-|[<-|[<-|[<-|[]]]]]; repeat constructor. }
+  unfold src_unit, GL0. destruct (has_suffix_nl t) eqn:E.
+  - rewrite app_nil_r. split; [apply safe_app; [assumption|apply escape_printable_safe]|].
+    apply ends_nl_app', escape_ends_nl, has_suffix_nl_ends, E.
+  - split; [apply safe_app; [assumption|apply safe_app; [apply escape_printable_safe|repeat constructor]]|].
+    apply ends_nl_app', ends_nl_app'. exists []. reflexivity.
+Qed.
+
+Lemma expl_unit_GL0 x : GL0 (expl_unit x).
+Proof.
+  unfold expl_unit, GL0. split.
+  - apply safe_app; [destruct (nonempty_list x); repeat constructor|].
+    apply safe_app; [apply escape_printable_safe|repeat constructor].
+  - apply ends_nl_app', ends_nl_app'. exists []. reflexivity.
+Qed.
+
+Lemma hint_unit_GL0 cl what : safe cl -> safe what -> GL0 (hint_unit cl what).
+Proof.
+  intros Hc Hw. unfold hint_unit, GL0. split.
+  - apply safe_app; [repeat constructor|]. apply safe_app; [assumption|].
+    apply safe_app; [repeat constructor|]. apply safe_app; [assumption|repeat constructor].
+  - repeat apply ends_nl_app'. exists []. reflexivity.
+Qed.
+
+Lemma ev_ok_GL0 (PanicOK : Prop) ev : PanicOK \/ wf_event ev -> ev_ok PanicOK GL0 (fun _ _ _ _ => True) ev.
+Proof.
+  intro Hw. split; [assumption|].
+  assert (forall t, src_ok GL0 t) as Hsrc by (intros t p Hp; apply src_unit_GL0; assumption).
+  assert (forall ln fv, view_ok GL0 ln fv) as Hview.
+  { intros ln fv. repeat split; apply Forall_forall; intros; apply Hsrc. }
+  assert (forall e, explanation_ok GL0 e) as Hexpl.
+  { intro e. split; [split; [repeat constructor|exists []; reflexivity]|].
+    apply Forall_forall. intros x _. apply expl_unit_GL0. }
+  assert (forall args h, safe (snd h) -> hint_ok GL0 args h) as Hhint.
+  { intros args h Hs cl Hcl. apply hint_unit_GL0; [|assumption].
+    unfold command_line in Hcl. destruct args; [discriminate|]. inversion Hcl. apply escape_printable_safe. }
+  destruct ev; auto.
+  - split; [apply Hview|]. split; [exact I|]. split; [|apply Hexpl]. apply Forall_forall. intros; exact I.
+  - split; [|split]; apply Hhint; repeat constructor.
+Qed.
